@@ -1,5 +1,6 @@
 // C09 — mock parameter values compare by mathematical value, symmetrically.
-// Oracle: __int128 value of every stored integer; identity/content rules for the other types.
+// Oracle: __int128 value of every stored integer; identity/content rules for the other types;
+// libc strcmp/memcmp on the caller's storage at comparison time for by-reference values (strings, memory buffers).
 #include "verif.h"
 #include <cmath>
 #include <cfloat>
@@ -286,6 +287,273 @@ static void sec_cross(vf::Ctx& c) {
     if (ka != kb || ka == K_MEM) c.nontrivial(tp + std::to_string(va) + std::to_string(vb) + std::to_string(la) + std::to_string(lb));
 }
 
+// ---------------------------------------------------------------- sections: by-reference values (strings, memory buffers) over storage histories
+// A string / memory-buffer value holds only the caller's pointer: "content" is what the pointer designates when equals() runs.
+// The storage is rewritten (same bytes, other bytes of the same length, another length, extended behind the old terminator,
+// truncated) between setValue()/setMemoryBuffer() and equals(); the two sides may share or overlap their storage; equals() is
+// called repeatedly and through copies of the value objects. Oracle: libc strcmp / memcmp on the storage at comparison time.
+enum { BR_CAP = 16, BR_MAXLEN = 11, BR_MAXOFF = 3, BR_MAXSIZE = 8 };
+enum { OP_WRITE, OP_SET, OP_CMP };
+enum { LAY_SEPARATE, LAY_SHARED, LAY_OVERLAP };
+static const char* LAY_NAME[] = { "separate", "shared", "overlapping" };
+static const char STR_ALPHA[] = { 'a', 'a', 'b', 'c', 'A', ' ', '\x01', '\x80', '\xff' };
+static const unsigned char MEM_ALPHA[] = { 0, 0, 1, 'a', 0x80, 0xff };
+static const char* HIST_NAME[] = { "fresh", "storage-rewritten-with-the-same-content", "storage-rewritten-with-other-content-of-the-same-length", "storage-rewritten-to-another-length" };
+static const char* HIST_COUNTER[] = { "fresh_storage", "storage_rewritten_with_the_same_content", "storage_rewritten_with_other_content_of_the_same_length", "storage_rewritten_to_another_length" };
+
+struct BrOp { int op; int side; std::string bytes; size_t size; int reps; bool copy; unsigned prime; int order; };   // order of the 2 x reps equals() calls: 0 A~B,B~A alternating, 1 all A~B then all B~A, 2 all B~A then all A~B
+
+struct BrStore {
+    bool mem; int layout; int bufidx[2]; int off[2];
+    unsigned char* base[2];
+    size_t size[2];                       // memory buffers: the size given at the last set
+    std::string snap[2]; bool written[2]; // content at the last set / storage written since
+    unsigned char* p(int s) const { return base[bufidx[s]] + off[s]; }
+    size_t width(int s) const { size_t w = (size_t) (BR_CAP - off[s]); return w > 12 ? 12 : w; }
+    std::string content(int s) const { return mem ? std::string((const char*) p(s), size[s]) : std::string((const char*) p(s)); }
+    void init_fill() { for (int b = 0; b < 2; b++) { memset(base[b], mem ? 0x5a : 'z', BR_CAP); if (!mem) base[b][BR_CAP - 1] = 0; } written[0] = written[1] = false; size[0] = size[1] = 0; }
+    void write(int s, const std::string& bytes) {
+        memcpy(p(s), bytes.data(), bytes.size());
+        for (int t = 0; t < 2; t++) if (bufidx[t] == bufidx[s]) written[t] = true;
+    }
+    void note_set(int s, size_t sz) { size[s] = sz; snap[s] = content(s); written[s] = false; }
+    int hist(int s) const {
+        if (!written[s]) return 0;
+        std::string now = content(s);
+        if (now == snap[s]) return 1;
+        return now.size() == snap[s].size() ? 2 : 3;
+    }
+};
+
+static std::string rand_chars(vf::Rng& r, size_t n) { std::string s; for (size_t i = 0; i < n; i++) s += r.pick(STR_ALPHA); return s; }
+
+static std::string gen_write(vf::Rng& r, const BrStore& st, int side, bool random_content = false) {
+    if (!st.mem) {
+        std::string self = st.content(side), other = st.content(1 - side), s;
+        switch (random_content ? 8 : r.below(9)) {
+        case 0: s = self; break;                                                        // the same bytes again
+        case 1: s = other; break;                                                       // now equal to the other side
+        case 2: s = other.substr(0, r.below(other.size() + 1)); break;                  // a prefix of the other side
+        case 3: s = other + rand_chars(r, 1 + r.below(3)); break;                       // the other side is a prefix of this one
+        case 4: s = self + rand_chars(r, 1 + r.below(3)); break;                        // extended behind the old terminator
+        case 5: s = self.substr(0, r.below(self.size() + 1)); break;                    // truncated
+        case 6: s = other; if (s.empty()) s = "a"; else { size_t k = r.below(s.size()); s[k] = (char) (s[k] == 'a' ? 'b' : 'a'); } break;   // same length as the other side, one character differs
+        case 7: s = rand_chars(r, self.size()); break;                                  // same length as before, other content
+        default: s = rand_chars(r, r.below(BR_MAXLEN + 1)); break;
+        }
+        if (s.size() > BR_MAXLEN) s.resize(BR_MAXLEN);
+        s += '\0';
+        return s;
+    }
+    size_t w = st.width(side), wo = st.width(1 - side);
+    std::string self((const char*) st.p(side), w), other((const char*) st.p(1 - side), wo), s = self;
+    auto flip = [&](size_t k) { s[k] = (char) (s[k] == 0 ? 1 : 0); };
+    switch (random_content ? 6 : r.below(7)) {
+    case 0: break;                                                                      // the same bytes again
+    case 1: case 2: s.replace(0, std::min(w, wo), other, 0, std::min(w, wo)); if (r.chance(40) && st.size[side]) flip(r.below(st.size[side])); break;   // (nearly) equal to the other side
+    case 3: s.replace(0, std::min(w, wo), other, 0, std::min(w, wo)); if (st.size[side] < w) flip(st.size[side] + r.below(w - st.size[side])); break;   // differs only behind the length given
+    case 4: if (st.size[side]) flip(r.below(st.size[side])); break;                     // one byte inside the length given
+    default: for (size_t i = 0; i < w; i++) s[i] = (char) r.pick(MEM_ALPHA); break;
+    }
+    return s;
+}
+
+static void prime_byref(MockNamedValue& v, unsigned how) {
+    static const unsigned char junk[12] = { 9, 9, 9, 9, 9, 9, 9, 9, 9, 9, 9, 9 };
+    switch (how % 8) {
+    case 5: v.setMemoryBuffer(junk, 7); break;       // an earlier buffer of another size
+    case 6: v.setValue("earlier string"); break;
+    case 7: v.setMemoryBuffer(junk, 0); v.setValue((const char*) "x"); break;
+    default: prime(v, how % 8); break;
+    }
+}
+
+static std::vector<BrOp> gen_byref_script(vf::Rng& r, BrStore& st, bool with_cmp_rounds) {
+    std::vector<BrOp> ops;
+    auto W = [&](int side, bool rnd = false) { BrOp o{ OP_WRITE, side, gen_write(r, st, side, rnd), 0, 0, false, 0 }; st.write(side, o.bytes); ops.push_back(o); };
+    auto S = [&](int side, size_t sz) { BrOp o{ OP_SET, side, "", sz, 0, false, (unsigned) r.below(8) }; st.note_set(side, sz); ops.push_back(o); };
+    st.mem = r.chance(40);
+    st.layout = (int) r.pick(std::vector<int>{ LAY_SEPARATE, LAY_SEPARATE, LAY_SEPARATE, LAY_SHARED, LAY_OVERLAP });
+    int inner = (int) r.below(2);
+    st.bufidx[0] = 0; st.bufidx[1] = st.layout == LAY_SEPARATE ? 1 : 0; st.off[0] = st.off[1] = 0;
+    if (st.layout == LAY_OVERLAP) st.off[inner] = r.range(1, BR_MAXOFF);
+    st.init_fill();
+    size_t sz0 = st.mem ? r.below(BR_MAXSIZE + 1) : 0, sz1 = st.mem ? (r.chance(70) ? sz0 : r.below(BR_MAXSIZE + 1)) : 0;
+    st.size[0] = sz0; st.size[1] = sz1;                 // so that the first writes are generated relative to the judged ranges
+    int first = (int) r.below(2);
+    W(first, true); W(1 - first);
+    S(first, first == 0 ? sz0 : sz1);
+    if (r.chance(30)) W((int) r.below(2));              // the storage changes between the two sets
+    S(1 - first, first == 0 ? sz1 : sz0);
+    if (!with_cmp_rounds) return ops;
+    int mut = (int) r.below(3);                         // which side's storage is rewritten: both, only A, only B (the other one is a constant)
+    int rounds = r.range(1, 4);
+    for (int k = 0; k < rounds; k++) {
+        int nw = k == 0 ? (int) r.pick(std::vector<int>{ 0, 0, 1, 1, 1, 2 }) : (int) r.pick(std::vector<int>{ 0, 1, 1, 1, 2, 2 });   // first comparison: often on untouched storage
+        if (k > 0 && nw == 0 && r.chance(70)) nw = 1;
+        for (int i = 0; i < nw; i++) W(mut == 0 ? (int) r.below(2) : mut - 1);
+        if (r.chance(15)) { int s = (int) r.below(2); S(s, st.mem ? (r.chance(50) ? st.size[s] : r.below(BR_MAXSIZE + 1)) : 0); }
+        ops.push_back(BrOp{ OP_CMP, 0, "", 0, r.range(1, 3), r.chance(20), 0, (int) r.below(3) });
+    }
+    return ops;
+}
+
+static std::string byref_desc(const BrStore& st, const std::vector<BrOp>& ops) {
+    std::vector<std::string> items;
+    for (const BrOp& o : ops) {
+        if (o.op == OP_WRITE) items.push_back(vf::J().k("op", "write").k("side", o.side ? "B" : "A").k("hex", vf::hexbytes(o.bytes.data(), o.bytes.size())).str());
+        else if (o.op == OP_SET) items.push_back(vf::J().k("op", "set").k("side", o.side ? "B" : "A").k("size", (unsigned long) o.size).k("primed", o.prime).str());
+        else items.push_back(vf::J().k("op", "compare").k("times", o.reps).k("through_copies", o.copy).k("order", o.order == 0 ? "alternating" : o.order == 1 ? "A~B first" : "B~A first").str());
+    }
+    return vf::J().k("kind", st.mem ? "memory buffer" : "string").k("storage", LAY_NAME[st.layout]).k("offset_a", st.off[0]).k("offset_b", st.off[1]).raw("history", vf::jarr(items)).str();
+}
+
+static void set_byref(MockNamedValue& v, const BrStore& st, int side, size_t sz, unsigned how) {
+    prime_byref(v, how);
+    if (st.mem) v.setMemoryBuffer(st.p(side), sz); else v.setValue((const char*) st.p(side));
+}
+
+static std::string byref_class(const BrStore& st) {
+    int h = std::max(st.hist(0), st.hist(1));
+    return std::string(st.mem ? "const unsigned char*" : "const char*") + ":" + HIST_NAME[h];      // the storage layout goes into the detail, one defect = one key
+}
+static bool byref_expect(const BrStore& st) {
+    return st.mem ? (st.size[0] == st.size[1] && memcmp(st.p(0), st.p(1), st.size[0]) == 0) : strcmp((const char*) st.p(0), (const char*) st.p(1)) == 0;
+}
+static void byref_count_state(vf::Ctx& c, const BrStore& st, const char* prefix, bool expect) {
+    int h = std::max(st.hist(0), st.hist(1));
+    std::string pre = prefix;
+    c.count(pre + (st.mem ? "_memory_" : "_string_") + HIST_COUNTER[h]);
+    if (h == 3) c.count(pre + (expect ? "_content_equal_after_rewrite_to_another_length" : "_content_differs_after_rewrite_to_another_length"));
+    if (h == 2 && expect) c.count(pre + "_content_equal_after_rewrite_with_other_content");
+    if (st.layout != LAY_SEPARATE) c.count(pre + (st.layout == LAY_SHARED ? "_shared_storage" : "_overlapping_storage"));
+    if (!expect && !st.mem) {
+        std::string a = st.content(0), b = st.content(1);
+        if (a.compare(0, std::min(a.size(), b.size()), b, 0, std::min(a.size(), b.size())) == 0) c.count(pre + "_string_one_side_a_proper_prefix_of_the_other");
+    }
+    if (st.mem && st.size[0] == st.size[1] && memchr(st.p(0), 0, st.size[0])) c.count(pre + "_memory_same_length_with_zero_bytes");
+    if (st.mem && st.size[0] != st.size[1]) c.count(pre + "_memory_lengths_differ");
+}
+
+static void sec_byref(vf::Ctx& c) {
+    unsigned char simbuf[2][BR_CAP];
+    BrStore sim; sim.base[0] = simbuf[0]; sim.base[1] = simbuf[1];
+    std::vector<BrOp> ops = gen_byref_script(c.rng, sim, true);
+    BrStore st = sim;
+    std::string desc = byref_desc(sim, ops);
+    c.begin([=] { return desc; });
+    st.base[0] = (unsigned char*) ::malloc(BR_CAP); st.base[1] = (unsigned char*) ::malloc(BR_CAP);   // exact size: ASan / memcheck see every read behind the storage
+    st.init_fill();
+    bool interesting = st.layout != LAY_SEPARATE;
+    {
+        MockNamedValue A("p"), B("p");
+        for (const BrOp& o : ops) {
+            if (o.op == OP_WRITE) { st.write(o.side, o.bytes); c.count("byref_storage_writes"); }
+            else if (o.op == OP_SET) { set_byref(o.side ? B : A, st, o.side, o.size, o.prime); st.note_set(o.side, o.size); c.count("byref_sets"); }
+            else {
+                bool expect = byref_expect(st);
+                std::string cls = byref_class(st);
+                byref_count_state(c, st, "byref_comparisons", expect);
+                if (std::max(st.hist(0), st.hist(1)) > 0) interesting = true;
+                MockNamedValue CA(A), CB(B);
+                const MockNamedValue& X = o.copy ? CA : A; const MockNamedValue& Y = o.copy ? CB : B;
+                if (o.copy) c.count("byref_comparisons_through_copied_value_objects");
+                if (o.reps > 1) c.count("byref_comparisons_repeated_on_the_same_pair");
+                bool flagged = false;
+                bool ab = expect, ba = expect;
+                for (int k = 0; k < 2 * o.reps; k++) {
+                    bool dir_ab = o.order == 0 ? k % 2 == 0 : (o.order == 1) == (k < o.reps);
+                    if (dir_ab) ab = X.equals(Y); else ba = Y.equals(X);
+                    c.count(expect ? "byref_equals_calls_content_equal" : "byref_equals_calls_content_differs");
+                    if (flagged) continue;
+                    if (ab != expect || ba != expect) {
+                        flagged = true;
+                        c.violation("byref-equals-wrong:" + cls, std::string(dir_ab ? "A.equals(B)=" : "B.equals(A)=") + std::to_string(dir_ab ? ab : ba) + " (call " + std::to_string(k + 1) + " of " + std::to_string(2 * o.reps) + ") but the contents " + (expect ? "are equal" : "differ")
+                                    + " (" + LAY_NAME[st.layout] + " storage): A=" + vf::hexbytes(st.content(0).data(), st.content(0).size()) + " B=" + vf::hexbytes(st.content(1).data(), st.content(1).size()));
+                    }
+                }
+                if (o.order) c.count("byref_comparisons_with_consecutive_calls_in_one_direction");
+            }
+        }
+    }
+    ::free(st.base[0]); ::free(st.base[1]);
+    c.count(st.mem ? "byref_memory_cases" : "byref_string_cases");
+    if (interesting) c.nontrivial(desc);
+}
+
+// The same through the mock: an expectation recorded on storage that is filled in before the actual call arrives.
+static BrStore g_mst; static std::vector<BrOp>* g_mops; static int g_mstage; static bool g_mexpect_eq; static int g_mapi;
+static unsigned char g_mbuf[2][BR_CAP];
+static void mock_byref_body() {
+    BrStore& st = g_mst;
+    g_mstage = 0;
+    for (const BrOp& o : *g_mops) {
+        if (o.op == OP_WRITE) st.write(o.side, o.bytes);
+        else if (o.op == OP_SET && o.side == 0) {        // side A: the expectation
+            MockExpectedCall& e = mock().expectOneCall("f");
+            if (st.mem) { if (g_mapi) e.withMemoryBufferParameter("p", st.p(0), o.size); else e.withParameter("p", (const unsigned char*) st.p(0), o.size); }
+            else { if (g_mapi) e.withStringParameter("p", (const char*) st.p(0)); else e.withParameter("p", (const char*) st.p(0)); }
+            st.note_set(0, o.size);
+        } else if (o.op == OP_SET) {                      // side B: the actual call, judged when its parameter is passed
+            st.note_set(1, o.size);
+            g_mexpect_eq = byref_expect(st);
+            g_mstage = 1;
+            MockActualCall& a = mock().actualCall("f");
+            if (st.mem) a.withParameter("p", (const unsigned char*) st.p(1), o.size); else a.withParameter("p", (const char*) st.p(1));
+            g_mstage = 2;
+        }
+    }
+    mock().checkExpectations();
+    g_mstage = 3;
+}
+
+static void sec_mock_byref(vf::Ctx& c) {
+    BrStore& st = g_mst; st.base[0] = g_mbuf[0]; st.base[1] = g_mbuf[1];
+    std::vector<BrOp> ops;
+    {   // expectation first, 0..2 rewrites of the storage, then the actual call
+        vf::Rng& r = c.rng;
+        auto W = [&](int side, bool rnd = false) { BrOp o{ OP_WRITE, side, gen_write(r, st, side, rnd), 0, 0, false, 0 }; st.write(side, o.bytes); ops.push_back(o); };
+        st.mem = r.chance(35);
+        st.layout = (int) r.pick(std::vector<int>{ LAY_SEPARATE, LAY_SEPARATE, LAY_SEPARATE, LAY_SHARED, LAY_OVERLAP });
+        st.bufidx[0] = 0; st.bufidx[1] = st.layout == LAY_SEPARATE ? 1 : 0; st.off[0] = st.off[1] = 0;
+        if (st.layout == LAY_OVERLAP) st.off[r.below(2)] = r.range(1, BR_MAXOFF);
+        st.init_fill();
+        size_t sz0 = st.mem ? r.below(BR_MAXSIZE + 1) : 0, sz1 = st.mem ? (r.chance(75) ? sz0 : r.below(BR_MAXSIZE + 1)) : 0;
+        st.size[0] = sz0; st.size[1] = sz1;
+        W(0, true); W(1);
+        ops.push_back(BrOp{ OP_SET, 0, "", sz0, 0, false, 0 }); st.note_set(0, sz0);
+        int nw = (int) r.pick(std::vector<int>{ 0, 1, 1, 1, 2, 2 });
+        for (int i = 0; i < nw; i++) W(r.chance(70) ? 0 : 1);
+        ops.push_back(BrOp{ OP_SET, 1, "", sz1, 0, false, 0 }); st.note_set(1, sz1);
+        g_mapi = (int) r.below(2);
+    }
+    std::string desc = byref_desc(st, ops);
+    int api = g_mapi;
+    c.begin([=] { return vf::J().k("expectation_api", api ? "named" : "overloaded").raw("scenario", desc).str(); });
+    st.init_fill();
+    g_mops = &ops; g_mstage = -1; g_mexpect_eq = false;
+    mock().clear();
+    int failures;
+    {
+        TestTestingFixture fx;
+        fx.setTestFunction(mock_byref_body);
+        fx.runAllTests();
+        failures = (int) fx.getFailureCount();
+    }
+    mock().clear();
+    g_mops = nullptr;
+    std::string cls = byref_class(st);
+    if (g_mstage < 1) { c.count("mock_byref_scenarios_left_before_the_actual_call_unjudged"); return; }   // recording the expectation failed the test: not a comparison
+    bool expect = g_mexpect_eq;
+    byref_count_state(c, st, "mock_byref_calls", expect);
+    c.count(expect ? "mock_byref_calls_content_equal" : "mock_byref_calls_content_differs");
+    if (expect && (failures != 0 || g_mstage != 3))
+        c.violation("mock-byref-verdict-wrong:" + cls, std::string("actual value has the content of the expected one when it is passed (") + LAY_NAME[st.layout] + " storage), but the test " + (failures ? "failed (" + std::to_string(failures) + " failures)" : std::string("left at stage ") + std::to_string(g_mstage)));
+    if (!expect && failures == 0)
+        c.violation("mock-byref-verdict-wrong:" + cls, std::string("actual value differs from the expected one when it is passed (") + LAY_NAME[st.layout] + " storage), but the test passed (stage " + std::to_string(g_mstage) + ")");
+    if (std::max(st.hist(0), st.hist(1)) > 0 || st.layout != LAY_SEPARATE) c.nontrivial(desc + (api ? "n" : "o"));
+}
+
 int main(int argc, char** argv) {
     init_pairs(); init_getters();
     g_repo = new MockNamedValueComparatorsAndCopiersRepository;
@@ -298,6 +566,8 @@ int main(int argc, char** argv) {
         { "cross_type_table", (uint64_t) K_N * K_N * 3 * 3 * 3 * 2, (uint64_t) K_N * K_N * 3 * 3 * 3 * 2, sec_cross, true },
         { "int_pairs_random", 20000, 2000000, sec_randpairs, false },
         { "getters_random", 3000, 150000, sec_randgetters, false },
+        { "by_reference_storage_histories", 8000, 400000, sec_byref, false },
+        { "mock_by_reference_storage", 2500, 60000, sec_mock_byref, false },
     };
     return vf::harness_main(argc, argv, S, nullptr);
 }
